@@ -158,7 +158,7 @@ theorem collectArgs_groups (T : PTables) (mac : MacroDef) (rest : Buf) (st : PSt
     rw [hflat, List.length_cons, List.replicate_succ, collectArgs]
     simp only [skippedLangs_cons_of_not _ _ hl, skipSpace_cons_of_not _ _ hl, List.append_nil,
       List.head?_cons, show ('A' == '*') = false by decide, show ('A' == 'O') = false by decide,
-      beq_self_eq_true, if_true, show txtIs (lbr g.p) "}" = false by rfl, Bool.false_eq_true, if_false]
+      beq_self_eq_true, if_true, show txtIsNV (lbr g.p) "}" = false by rfl, Bool.false_eq_true, if_false]
     refine (M.bind_ok _ _ _ _ _ a1).trans ?_
     dsimp only [lbr]
     rw [collectArgs_groups T mac rest st gs (i + 1) g.p _ (fun x hx => h x (List.mem_cons_of_mem _ hx))]
@@ -206,30 +206,30 @@ theorem collectArgs_defN (T : PTables) (mac : MacroDef) (hd : mac.defaults = [])
   -- '*'
   rw [collectArgs]
   simp only [skippedLangs_cons_of_not _ _ (hl p1), skipSpace_cons_of_not _ _ (hl p1), List.append_nil,
-    List.head?_cons, beq_self_eq_true, if_true, show txtIs (lbr p1) "*" = false by rfl,
+    List.head?_cons, beq_self_eq_true, if_true, show txtIsNV (lbr p1) "*" = false by rfl,
     Bool.false_eq_true, if_false]
   -- 'A'
   rw [collectArgs]
   simp only [skippedLangs_cons_of_not _ _ (hl p1), skipSpace_cons_of_not _ _ (hl p1), List.append_nil,
     List.head?_cons, show ('A' == '*') = false by decide, show ('A' == 'O') = false by decide,
-    beq_self_eq_true, if_true, show txtIs (lbr p1) "}" = false by rfl, Bool.false_eq_true, if_false]
+    beq_self_eq_true, if_true, show txtIsNV (lbr p1) "}" = false by rfl, Bool.false_eq_true, if_false]
   refine (M.bind_ok _ _ _ _ _ a1).trans ?_
   -- 'O': `[d]`
   rw [collectArgs]
   simp only [skippedLangs_cons_of_not _ _ hl', skipSpace_cons_of_not _ _ hl', List.append_nil,
     List.head?_cons, show ('O' == '*') = false by decide, beq_self_eq_true, if_true,
-    show txtIs (txtTok p3 '[') "[" = true by rfl]
+    show txtIsNV (txtTok p3 '[') "[" = true by rfl]
   refine (M.bind_ok _ _ _ _ _ a2).trans ?_
   -- 'O': no default
   rw [collectArgs]
   simp only [skippedLangs_cons_of_not _ _ (hl p6), skipSpace_cons_of_not _ _ (hl p6), List.append_nil,
     List.head?_cons, show ('O' == '*') = false by decide, beq_self_eq_true, if_true,
-    show txtIs (lbr p6) "[" = false by rfl, Bool.false_eq_true, if_false, hd, List.getElem?_nil]
+    show txtIsNV (lbr p6) "[" = false by rfl, Bool.false_eq_true, if_false, hd, List.getElem?_nil]
   -- 'A'
   rw [collectArgs]
   simp only [skippedLangs_cons_of_not _ _ (hl p6), skipSpace_cons_of_not _ _ (hl p6), List.append_nil,
     List.head?_cons, show ('A' == '*') = false by decide, show ('A' == 'O') = false by decide,
-    beq_self_eq_true, if_true, show txtIs (lbr p6) "}" = false by rfl, Bool.false_eq_true, if_false]
+    beq_self_eq_true, if_true, show txtIsNV (lbr p6) "}" = false by rfl, Bool.false_eq_true, if_false]
   refine (M.bind_ok _ _ _ _ _ a3).trans ?_
   rw [collectArgs]
   rfl
@@ -245,6 +245,18 @@ theorem getTextExpanded_single (T : PTables) (fuel : Nat) (t : Tok) (st : PState
   have : getTextDirect [t] = t.txt := by simp [getTextDirect, hp.notComment]
   show Outcome.ok _ = _
   simp only [this]
+
+/-- a decimal digit has a value of at most nine (so `h_newcommand` accepts the count) -/
+theorem decimalValue_le9 (zeros : List Nat) (c : Char) (n : Nat) (h : decimalValue zeros c = some n) :
+    n ≤ 9 := by
+  unfold decimalValue at h
+  cases hf : zeros.find? (fun z => decide (z ≤ c.toNat) && decide (c.toNat < z + 10)) with
+  | none => simp [hf] at h
+  | some z =>
+    have := List.find?_some hf
+    simp only [hf, Option.map_some, Option.some.injEq] at h
+    simp only [Bool.and_eq_true, decide_eq_true_eq] at this
+    omega
 
 /-- **the handler step.**  On the arguments collected from `{\name}[d]{body}` (no star, the digit
     `d` with value `n`, no default) `h_newcommand` stores the macro with `n` mandatory arguments and
@@ -271,6 +283,8 @@ theorem callHandler_newcommandN (T : PTables) (fuel : Nat) (buf : Buf) (mac : Ma
   simp only [txtTok, List.isEmpty_cons, Bool.not_false, List.all_cons, List.all_nil, hdv,
     Option.isSome_some, Bool.and_self, if_true, List.foldl_cons, List.foldl_nil, Nat.zero_mul,
     Nat.zero_add, Option.getD_some, List.isEmpty_nil, Bool.not_true, Bool.false_eq_true, if_false]
+  have hn9 : ¬ n > 9 := by have := decimalValue_le9 _ _ _ hdv; omega
+  simp only [hn9, if_false]
   generalize hfd : List.find? _ b = r
   cases r with
   | some bad =>
@@ -346,7 +360,7 @@ theorem expandMacro_use (T : PTables) (fuel : Nat) (gs : List Group) (rest : Buf
       = .ok ((mkAction tok.pos ::
                 genOut ((gs.take n).map (·.toks)) b (genCur ((gs.take n).map (·.toks)) b tok.pos),
               groupsFlat (gs.drop n) ++ rest), st) := by
-  have hskip : skipSpaceStopLang (groupsFlat gs ++ rest) = groupsFlat gs ++ rest := by
+  have hskip : skipSpaceStopLangAct (groupsFlat gs ++ rest) = groupsFlat gs ++ rest := by
     cases gs with
     | nil => exact absurd rfl hne
     | cons g gs' => exact skipSpaceStopLang_cons_of_not _ _ (rfl : isSpaceTok (lbr g.p) = false)
@@ -668,7 +682,7 @@ theorem GroupGood.congr {T : PTables} {st st' : PState} (hl : st'.langStack = st
   ⟨h.1, fun t ht => ⟨(h.2 t ht).1, by rw [activeChars_congr T st st' hl]; exact (h.2 t ht).2⟩⟩
 
 theorem skip_groups (gs : List Group) (rest : Buf) (hne : gs ≠ []) :
-    skipSpaceStopLang (groupsFlat gs ++ rest) = groupsFlat gs ++ rest := by
+    skipSpaceStopLangAct (groupsFlat gs ++ rest) = groupsFlat gs ++ rest := by
   cases gs with
   | nil => exact absurd rfl hne
   | cons g gs' => exact skipSpaceStopLang_cons_of_not _ _ (rfl : isSpaceTok (lbr g.p) = false)
